@@ -156,13 +156,30 @@ func (eng *Engine) verifyContract(ct *Contract) (res *FuncResult) {
 			// the clause is evaluated at every return site in that site's own
 			// (unmerged) state; the obligation is the conjunction
 			var parts []string
-			for _, r := range vc.rootRets {
+			for ri, r := range vc.rootRets {
 				if r.cond == "false" {
 					continue
 				}
 				post := append(append(append([]Val{}, argsL...), r.vals...), olds...)
 				g := vc.evalClause(cl, post, r.st, nil)
+				if ct.Split && len(r.into) > 1 {
+					// one obligation per way into this return; together (the edge
+					// conditions cover the block's reachability) they are the clause
+					for ei, ec := range r.into {
+						gs := vc.def("Bool", "post", sImp(sAnd(r.cond, ec), g))
+						o := vc.addObl("post", vc.rootKey, fmt.Sprintf("post:%s:%d/ret%d.%d", vc.rootKey, k, ri, ei), "true", gs, fn.Pos())
+						o.Clause = cl.Text
+						o.ClauseFn = cl.FnName
+					}
+					cov := vc.def("Bool", "post", sImp(r.cond, sOr(r.into...)))
+					o := vc.addObl("post", vc.rootKey, fmt.Sprintf("post:%s:%d/ret%d.cover", vc.rootKey, k, ri), "true", cov, fn.Pos())
+					o.Clause = "the ways into the return cover it"
+					continue
+				}
 				parts = append(parts, sImp(r.cond, g))
+			}
+			if len(parts) == 0 && ct.Split {
+				continue
 			}
 			g := vc.def("Bool", "post", sAnd(parts...))
 			o := vc.addObl("post", vc.rootKey, fmt.Sprintf("post:%s:%d", vc.rootKey, k), "true", g, fn.Pos())
